@@ -84,6 +84,9 @@ theorem Entry.role_toS {e : Entry} (h : EntryWF e) (n : Str) : e.persons.getItem
 theorem Entry.crossref_toS {e : Entry} (h : EntryWF e) : e.fields.getItem Pybtex.xrefName = e.toS.crossref :=
   getItem_field h.fields _
 
+theorem getItem_lower_congr {V : Type} (d : CIDict V) {x y : Str} (h : lower x = lower y) : d.getItem x = d.getItem y := by
+  simp [CIDict.getItem, h]
+
 theorem omap_get_mem {V : Type} {m : OMap V} {k : Str} {v : V} (h : OMap.get m k = some v) :
     ∃ t ∈ m, t.2.2 = v ∧ t.1 = lower k := by
   induction m with
@@ -962,5 +965,19 @@ theorem readFile_spelling (cits : List Str) (file : List (Str × Entry)) {db : B
     (h : BibData.readFile (some cits) file = some (db, rep)) : SpelledAsCited cits db :=
   readEntries_spelling file (d := BibData.init (some cits)) rfl
     (by intro k hk; simp [BibData.init, CIDict.iter, CIDict.empty] at hk) h
+
+/-! ### the well-formedness predicates are decidable -/
+
+instance instDecidableCIDictInv {V : Type} (d : CIDict V) : Decidable (CIDict.Inv d) := by
+  unfold CIDict.Inv Lock; exact inferInstance
+
+instance instDecidableEntryWF (e : Entry) : Decidable (EntryWF e) :=
+  decidable_of_iff (CIDict.Inv e.fields ∧ CIDict.Inv e.persons) ⟨fun h => ⟨h.1, h.2⟩, fun h => ⟨h.fields, h.persons⟩⟩
+
+instance instDecidableDbWF (d : BibData) : Decidable (DbWF d) :=
+  decidable_of_iff (CIDict.Inv d.entries ∧ (∀ t ∈ CIDict.abs d.entries, t.2.2.key = t.2.1) ∧
+      ∀ t ∈ CIDict.abs d.entries, CIDict.Inv t.2.2.fields ∧ CIDict.Inv t.2.2.persons)
+    ⟨fun h => ⟨h.1, h.2.1, fun t ht => ⟨(h.2.2 t ht).1, (h.2.2 t ht).2⟩⟩,
+     fun h => ⟨h.inv, h.keyEq, fun t ht => ⟨(h.entries t ht).fields, (h.entries t ht).persons⟩⟩⟩
 
 end Pybtex
